@@ -613,7 +613,11 @@ impl<'a> Runner<'a> {
           // tasks no longer behave as they would in a from-scratch build of the current state: nothing to compare with.
           // Likewise after an external change inside the open session: an execution that ran on a memoised output
           // (and would have been repaired later in the build) can leave records that no state of the program produces.
-          if tainted_before || slice.iter().any(|e| matches!(e, Ev::MidChange { .. })) { self.stats.hit("abort_in_tainted_session_not_judged"); } else
+          // And in a bottom-up session that follows an abort (before a returning session has required all known tasks
+          // again): no property claims such builds (11.2); tasks may legitimately have run on inputs that the aborted
+          // build left half-updated.
+          let unclaimed_bu_after_abort = matches!(kind, SessionKind::BottomUp { .. }) && dirty_at_start;
+          if tainted_before || unclaimed_bu_after_abort || slice.iter().any(|e| matches!(e, Ev::MidChange { .. })) { self.stats.hit("abort_in_tainted_session_not_judged"); } else
           { self.judge_diagnostic_abort(step, abort, &analysis, &before, &real, store_differs); }
         }
         AbortKind::Other => { self.harness_error = Some(format!("unexpected panic outside the repository: {}", abort.info.short())); }
@@ -1087,9 +1091,11 @@ impl<'a> Runner<'a> {
         Ev::BuStart => {
           in_bu_phase = true;
           builds_started += 1;
-          // "At most once" is a statement per build; only under injected checker errors can a task legitimately run
-          // again in the next phase of the same session (a persistent error makes every validation fail).
-          if !fault_free || mid_seen { for c in exec_count.iter_mut() { *c = 0; } }
+          // "At most once" is a statement per build (C04) / per top-down session (C02). A task can legitimately run again in
+          // the next build of the same session: under a persistent checker error, after an external change inside the
+          // session, and when the session follows an abort (whose leftovers the first build only partly repairs). Every
+          // execution still needs its inconsistent verdict (`bu-unjustified-execution`).
+          for c in exec_count.iter_mut() { *c = 0; }
         }
         Ev::BuDropped => { in_bu_phase = false; pending.clear(); order_candidates.clear(); }
         Ev::BuScheduled => {
@@ -1134,7 +1140,10 @@ impl<'a> Runner<'a> {
           exec_count[*t] += 1;
           if exec_count[*t] > 1 && !mid_seen {
             let props: &[&str] = if in_bu_phase { &["C04"] } else { &["C02"] };
-            if in_bu_phase && aborted_at_start[*t] { probes[6] = true; } else {
+            // A task that an earlier abort left without output can run twice in one bottom-up build (on the spot when it is
+            // required, and again when it is popped: not claimed, see above); what its second run rewrites can make the
+            // tasks that depend on it run a second time as well.
+            if in_bu_phase && (aborted_at_start[*t] || probes[6]) { probes[6] = true; } else {
               v(props, "executed-twice", format!("task {t} entered execute {} times in one session", exec_count[*t]));
             }
           }
@@ -1477,13 +1486,28 @@ impl<'a> Runner<'a> {
     if !aborted {
       // A build that returns leaves at most one writer per resource and every reader dependent on the writer.
       let none_old: Vec<Option<ExecRec>> = vec![None; ntasks];
+      let world_end: Vec<Option<Val>> = { let mut w = before.to_vec(); for e in slice.iter() { if let Ev::ResSet { res, new, .. } | Ev::MidChange { res, new } = e { if let Some(i) = prog.res_index(*res) { w[i] = *new; } } } w };
       for r in prog.resources.iter() {
         let writers: Vec<Tid> = (0..ntasks).filter(|x| self.ledger[*x].as_ref().map(|e| e.deps.iter().any(|d| d.kind == DepKind::Write && d.target == Target::Res(*r))).unwrap_or(false)).collect();
         // (only what this build itself executed or validated: what earlier builds of the session established may
         // since have lost its path through the truncated record of an aborted task)
         let fresh = |x: &Tid| executed.contains(x) || (validated_ok.contains(x) && !carry.validated.contains(x)) || bu_reused.contains(x);
         if writers.len() > 1 && writers.iter().any(|w| fresh(w)) { violations.push(Violation::new(&["C06"], "two-writers-after-build", step, format!("after the build returned, tasks {:?} are all recorded as writers of {:?}", writers, r))); }
-        if let Some(w) = writers.first() {
+        // A recorded writer that this build did not touch and whose own recorded resource dependencies no longer hold
+        // in the current state (its record is stale: it would be re-executed, and may well not write the resource any
+        // more) is not "the task that generates the resource".
+        let writer_current = |w: &Tid| -> bool {
+          if fresh(w) { return true; }
+          let Some(rec) = self.ledger[*w].as_ref() else { return false; };
+          rec.completed && rec.deps.iter().all(|d| match (d.target, d.rchk) {
+            (Target::Res(rr), Some(k)) if !k.is_zst() && k != RK::Version => {
+              let now = prog.res_index(rr).and_then(|i| world_end[i]);
+              match d.serials.first().and_then(|sn| self.stamp_seen.get(sn)) { Some(seen) => k.stamp_of(Cell { val: *seen, ver: 0 }) == k.stamp_of(Cell { val: now, ver: 0 }), None => true }
+            }
+            _ => true,
+          })
+        };
+        if let Some(w) = writers.first().filter(|w| writer_current(w)) {
           for x in (0..ntasks).filter(|x| x != w && fresh(x) && self.ledger[*x].as_ref().map(|e| e.deps.iter().any(|d| d.kind == DepKind::Read && d.target == Target::Res(*r))).unwrap_or(false)) {
             if !ledger_path(&self.ledger, &none_old, x, *w) {
               // A reader that was only validated (its own dependencies are consistent) while a task on its former
